@@ -47,6 +47,9 @@ def builder_harnesses():
 
 
 def check(run, only=None):
+    from .. import e3
+    e3.run_parts(run, ["rulebuilder"], only=only)
+    run.notes.append("E3 (MIR symbolic execution): RuleBuilder::parse / flatten / set_name / set_description / build on 0-2 (3) metadata items of every constant / non-constant shape with symbolic keys and values")
     syn = synx.Syntax(run)
     helper = synx.Helper(run)
     n_max = 7 if run.tier == "quick" else 9
@@ -74,6 +77,17 @@ def check(run, only=None):
 def replay(run, path):
     import json
     rec = json.load(open(path))
+    if rec["replay"].get("engine") == "e3-rule":
+        from .. import e3
+        from ..synx import Helper
+        got = Helper(run).call("rule", [rec["replay"]["text"]])[0]
+        want = e3.reference_rule(rec["replay"]["text"])
+        if e3.norm_rule(got) != e3.norm_rule(want):
+            print(f"VIOLATION property=C14 replay={path}")
+            print(f"  cell={rec['cell']} class={rec['class']}: {got[:200]} but the statement gives {want[:200]}")
+            return 1
+        print(f"replay {path}: behaves as specified on the current tree")
+        return 0
     if "harness" in rec["replay"]:
         from ..replay import replay_file
         return replay_file(run, path, gen_all=builder_harnesses, file=RULE_FILE, tag="c14")
